@@ -11,4 +11,4 @@ Definition year_span_ok (y0 m d : Z) : bool :=
 
 Lemma year_spans_ok :
   Zforall_range 0 400 (fun y0 => Zforall_range 1 12 (fun m => Zforall_range 1 31 (year_span_ok y0 m))) = true.
-Proof. vm_cast_no_check (eq_refl true). Qed.
+Proof. vm_compute. reflexivity. Qed.
